@@ -40,7 +40,6 @@ public:
     [[maybe_unused]] const auto in_range_pred = [&](auto x) { return x >= 0 && x < ::smooth::dof(m_m0); };
     assert(std::ranges::all_of(fixed_dims, in_range_pred));
     std::sort(m_fixed_dims.begin(), m_fixed_dims.end());
-    m_calc.setZero(::smooth::dof(m_m0));
   }
 
   /**
@@ -65,7 +64,8 @@ public:
   SubManifold<M> rplus(const Eigen::MatrixBase<Derived> & a) const
   {
     assert(dof() == a.size());
-    m_calc.setZero(::smooth::dof(m_m0));
+    // local scratch: a shared mutable member would make concurrent const calls race
+    Tangent<M> m_calc = Tangent<M>::Zero(::smooth::dof(m_m0));
     for (auto i = 0, j = 0, k = 0; i < m_calc.size(); ++i) {
       // i: full range
       // j: reduced range
@@ -85,7 +85,7 @@ public:
     assert(m_fixed_dims.isApprox(other.fixed_dims()));
     assert(m_m0.isApprox(other.m0()));
 
-    m_calc = traits::man<M>::rminus(m_m, other.m());
+    const Tangent<M> m_calc = traits::man<M>::rminus(m_m, other.m());
 
     Eigen::Vector<typename traits::man<M>::Scalar, -1> ret;
     ret.setZero(dof());
@@ -106,9 +106,6 @@ private:
   M m_m0{};
   M m_m{};
   Eigen::VectorXi m_fixed_dims{};
-
-  // calculation vector
-  mutable Tangent<M> m_calc{};
 };
 
 namespace traits {
